@@ -218,6 +218,31 @@ impl PartitionStorage for FilePartitionStorage {
             }
         }
 
+        if partition.segments.is_empty() {
+            // A purge deletes every segment before it creates the fresh one, and a new partition
+            // gets its directory before its first segment: if the server died in between, finish
+            // the job instead of keeping a partition that nothing can be appended to.
+            warn!(
+                "Partition with ID: {} for stream with ID: {} and topic with ID: {} has no segments, creating the initial one.",
+                partition.partition_id, partition.stream_id, partition.topic_id
+            );
+            partition.add_persisted_segment(0).await.with_error_context(|error| {
+                format!("{COMPONENT} (error: {error}) - failed to create the initial segment, partition: {partition}",)
+            })?;
+        }
+
+        // Likewise, a purge removes both offset directories and recreates them at the very end.
+        for offsets_path in [
+            &partition.consumer_offsets_path,
+            &partition.consumer_group_offsets_path,
+        ] {
+            if !Path::new(offsets_path).exists() && create_dir_all(offsets_path).await.is_err() {
+                return Err(IggyError::CannotReadConsumerOffsets(
+                    offsets_path.to_owned(),
+                ));
+            }
+        }
+
         partition
             .load_consumer_offsets()
             .await
